@@ -188,6 +188,28 @@ func summarise(tr *decTrace) *opSummary {
 		return s
 	}
 	s.Deliver = dels[0]
+	// arguments as they are on the delivering path: values handed back by helpers with several returns arrive as
+	// "ite(a read failed, zero, value)"; next to the delivery's own path condition (every read succeeded) they
+	// are the value
+	{
+		lits := normaliseLits(guardLits(s.Deliver.Guard))
+		cp := *s.Deliver
+		cp.Args = append([]*sym.Term{}, s.Deliver.Args...)
+		for i, a := range cp.Args {
+			if a == nil {
+				continue
+			}
+			for _, l := range lits {
+				if l.Op == "not" {
+					a = sym.Assume(a, l.Args[0], false)
+				} else if l.Op != "and" && l.Op != "or" {
+					a = sym.Assume(a, l, true)
+				}
+			}
+			cp.Args[i] = simplifyUnder(a, lits)
+		}
+		s.Deliver = &cp
+	}
 	s.Method = destMethodName(dels[0].Callee)
 	if inner, ok := inRep(dels[0]); !ok || len(inner) != 0 {
 		s.problem("delivery is not executed exactly once per repetition (loop nesting %d)", len(dels[0].Loops))
